@@ -23,6 +23,25 @@ class DeepApproximateMLL(_ApproximateMarginalLogLikelihood):
         super().__init__(base_mll.likelihood, base_mll.model, num_data=base_mll.num_data, beta=base_mll.beta)
         self.base_mll = base_mll
 
+    # The wrapped objective is what gets evaluated: beta and num_data are read from / written to it
+    @property
+    def beta(self):
+        return self.base_mll.beta
+
+    @beta.setter
+    def beta(self, value):
+        if "base_mll" in self._modules:
+            self.base_mll.beta = value
+
+    @property
+    def num_data(self):
+        return self.base_mll.num_data
+
+    @num_data.setter
+    def num_data(self, value):
+        if "base_mll" in self._modules:
+            self.base_mll.num_data = value
+
     def _log_likelihood_term(self, approximate_dist_f, target, **kwargs):
         return self.base_mll._log_likelihood_term(approximate_dist_f, target, **kwargs).mean(0)
 
